@@ -2,16 +2,22 @@
 """seed_keep.py <ID> <K> <status> <caught_by/notes...>: archive a confirmed seeded change under /verif/seeded/<ID>-<K>/"""
 import json, os, shutil, sys
 pid, k, status = sys.argv[1], sys.argv[2], sys.argv[3]
-rest = " ".join(sys.argv[4:])
+args = sys.argv[4:]
 src = "/tmp/out_%s" % pid
-dst = "/verif/seeded/%s-%s" % (pid, k)
+as_k = k
+if "--src" in args:
+    i = args.index("--src"); src = args[i + 1]; del args[i:i + 2]
+if "--as" in args:
+    i = args.index("--as"); as_k = args[i + 1]; del args[i:i + 2]
+rest = " ".join(args)
+dst = "/verif/seeded/%s-%s" % (pid, as_k)
 os.makedirs(dst, exist_ok=True)
 shutil.copy(os.path.join(src, "patch%s.diff" % k), os.path.join(dst, "patch.diff"))
 shutil.copy(os.path.join(src, "demo%s.py" % k), os.path.join(dst, "demo.py"))
 notes = open(os.path.join(src, "notes%s.md" % k)).read()
 open(os.path.join(dst, "notes.md"), "w").write(notes)
 meta = dict(
-    property=pid, seed=int(k), origin="independent sub-agent given only the property text and a scratch worktree",
+    property=pid, seed=int(as_k), origin="independent sub-agent given only the property text and a scratch worktree",
     needs_to_manifest=notes.strip().split("\n\n")[0][:600],
     confirmed=("demo.py exits 0 on the pristine tree and non-zero with patch.diff applied (PYTHONPATH=/repo/pulser-core:/repo/pulser-simulation); "
                "sub-agent reported the full tests/ directory unchanged (1107 passed / 183 skipped) with the patch"),
